@@ -7,7 +7,9 @@
 (*                                                                         *)
 (* argv: [fmt, kind, withp, fault]                                          *)
 (*   kind  : what -t names: "file" (name with the format's own extension), *)
-(*           "file_foreign_ext", "dir", "dir_slash", "symlink_dir", "empty"*)
+(*           "file_foreign_ext", "file_other_ext" (a name with the         *)
+(*           extension of ANOTHER registered packager), "dir", "dir_slash",*)
+(*           "symlink_dir", "empty"                                        *)
 (*           (no -t), "devfull" (a name whose writes fail), "existing_larger"*)
 (*   withp : -p <fmt> given                                                 *)
 (*   fault : "none" | "missing_script" | "missing_source" | "bad_config" | "devfull" *)
@@ -16,13 +18,17 @@ EXTENDS Integers, Sequences, FiniteSets, TLC, Json
 
 CONSTANT CliDeviations   \* "NoRemoveOnError": the partial file is left behind; "RemoveWrongPath": cleanup uses the -t argument, not the resolved path
 
-Kinds == {"file", "file_foreign_ext", "dir", "dir_slash", "symlink_dir", "empty", "devfull", "existing_larger"}
+Kinds == {"file", "file_foreign_ext", "file_other_ext", "dir", "dir_slash", "symlink_dir", "empty", "devfull", "existing_larger"}
 Faults == {"none", "missing_script", "missing_source", "bad_config", "devfull"}
 Fmts == {"deb", "rpm", "apk", "archlinux", "ipk"}
 
 IsDirKind(k) == k \in {"dir", "dir_slash", "symlink_dir"}
 (* the extension names a registered packager (".pkg.tar.zst" -> "zst" does not) *)
-CanInfer(f, k) == k \in {"file", "devfull", "existing_larger"} /\ f # "archlinux"
+CanInfer(f, k) == (k \in {"file", "devfull", "existing_larger"} /\ f # "archlinux") \/ k = "file_other_ext"
+(* the other packager whose extension a "file_other_ext" target carries (never archlinux: its extension names no packager) *)
+Other(f) == CASE f = "deb" -> "rpm" [] f = "rpm" -> "apk" [] f = "apk" -> "ipk" [] f = "ipk" -> "deb" [] OTHER -> "deb"
+(* what gets packaged: the packager given with -p, whatever the target is called; otherwise the one its extension names *)
+Built(a) == IF a.withp THEN a.fmt ELSE IF a.kind = "file_other_ext" THEN Other(a.fmt) ELSE a.fmt
 
 VARIABLES argv, pc, chosen, where, fs, exit, said
 vars == <<argv, pc, chosen, where, fs, exit, said>>
@@ -42,7 +48,7 @@ Fail(msg) == /\ exit' = 1 /\ said' = said \cup {msg} /\ pc' = "done"
 Guess ==
   /\ pc = "stat"
   /\ IF argv.withp THEN chosen' = argv.fmt /\ pc' = "parse" /\ UNCHANGED <<exit, said>>
-     ELSE IF CanInfer(argv.fmt, argv.kind) THEN chosen' = argv.fmt /\ pc' = "parse" /\ UNCHANGED <<exit, said>>
+     ELSE IF CanInfer(argv.fmt, argv.kind) THEN chosen' = Built(argv) /\ pc' = "parse" /\ UNCHANGED <<exit, said>>
      ELSE chosen' = "" /\ Fail("cause")
   /\ UNCHANGED <<argv, where, fs>>
 
@@ -90,12 +96,13 @@ FailureLeavesNothing == (pc = "done" /\ exit # 0) => (fs \in {"absent", "old"} /
 WritesWhereAsked ==
   (pc = "done" /\ exit = 0) =>
      where = (IF argv.kind = "empty" THEN "cwd/conventional" ELSE IF IsDirKind(argv.kind) THEN "dir/conventional" ELSE "target")
-InfersOnlyWhenNotGiven == (pc = "done" /\ exit = 0) => chosen = argv.fmt
+InfersOnlyWhenNotGiven == (pc = "done" /\ exit = 0) => chosen = Built(argv)
+GivenPackagerWins == (pc = "done" /\ exit = 0 /\ argv.withp) => chosen = argv.fmt
 
 (* behaviours for replay: every terminal state is exported (an always-true invariant with a print side effect, *)
 (* -workers 1); the harness runs the real binary with exactly this argv and compares the terminal state         *)
 ExportBehaviours ==
-  pc = "done" => PrintT(<<"CLIBEHAVIOUR", ToJson([argv |-> argv, exit |-> exit, where |-> where, fs |-> fs,
+  pc = "done" => PrintT(<<"CLIBEHAVIOUR", ToJson([argv |-> argv, exit |-> exit, where |-> where, fs |-> fs, chosen |-> chosen,
                                                    created |-> "created" \in said, cause |-> "cause" \in said])>>)
 
 (* the terminal outcome as a function of argv (what a trace of one run is compared with) *)
